@@ -13,8 +13,9 @@ RULE = ("exhaustive family on the dyadic grid: tiers of <=3 disjoint intervals w
         "protocol line; non-trivial = the region touches at least one entry, or entries lie after it with shrinking")
 TRUSTED = ["oracle: direct Python statement of the property (harness/props/C07.py:oracle)"]
 ASSUMPTIONS = ["finite non-negative timestamps; regions inside the tier span",
-               "distinct boundary times of one tier differ by more than 1e-9 relative (so the code's tolerant "
-               "Interval.__eq__ used by deleteEntry coincides with exact equality) — hypothesis NoClose of the theorems",
+               "distinct boundary times of the generated tiers differ by more than 1e-9 relative (a fact about this "
+               "family's inputs, used by the 1e-9 oracle comparison; NOT a hypothesis of the theorems any more: "
+               "deleteEntry matches exactly first, so the theorems hold however close the entries are)",
                "shifted times are compared with the oracle within 1e-9; model vs implementation bit for bit"]
 MODES = ["truncate", "categorical", "error"]
 
